@@ -31,6 +31,19 @@ class FastTileSubstitute(Contract):
         X, m = a.X, a.motif
         return [m.shape[0] <= X.shape[1], X.shape[0] + m.shape[1] - 1 <= X.shape[2], X.shape[0] >= 0, m.shape[1] >= 0, m.shape[0] >= 0]
 
+    def random_inputs(self, cfg, rng):
+        """(bounds-checked replay, vf/boundscheck.py) every fitting tiling of a small motif"""
+        import numpy
+        A, L = rng.randint(1, 4), rng.randint(1, 8)
+        Am, n = rng.randint(1, A), rng.randint(1, L)
+        rows = L - n + 1
+        X = numpy.array([[[rng.randint(0, 1) for _ in range(L)] for _ in range(A)] for _ in range(rows)], dtype='int8')
+        motif = numpy.array([[rng.randint(0, 1) for _ in range(n)] for _ in range(Am)], dtype='int8')
+        return [X, motif], {}
+
+    def show_inputs(self, args, kwargs):
+        return '_fast_tile_substitute(X of shape %s, motif of shape %s)' % (tuple(args[0].shape), tuple(args[1].shape))
+
     def final(self, a):
         X, m = a.X, a.motif
         n, Am = m.shape[1], m.shape[0]
